@@ -8,7 +8,7 @@ from .common_diff import run_cases, generic_replay
 PROOF_MODULE = "Nlmodel.Proofs.C03"
 PROOF_FILES = ["Nlmodel/Proofs/C03.lean", "Nlmodel/Proofs/Lemmas/GCMark.lean", "Nlmodel/Proofs/Lemmas/GCReach.lean", "Nlmodel/Model/GC.lean"]
 THEOREM_FILE = PROOF_FILES[0]
-LEVEL_TEXT = ("Lean theorems about the collector model (mirror of gc.rs after its repair; mark = recursive descent through arrays with the already-marked test, sweep = release exactly the unmarked managed objects): with the fuel the collector supplies, the mark phase reaches EVERY managed object reachable from the roots through nested, aliased and cyclic arrays (measure: number of unmarked managed objects); after a collection every reachable managed object is still managed with identical contents and unmanaged objects are untouched; the managed list never holds an address twice across allocation, collection and hand-over, so no object is released twice. Tied to gc.rs by (i) collector operation sequences (allocate float/string/array, link into array incl. cycles, collect with a chosen root set, hand over, destroy) run on the REAL GC and on the model, comparing after every operation which objects are still allocated and which are managed - complete enumeration up to a length bound, random beyond; (ii) whole allocating programs: the number of objects kept and released by every collection of the real VM equals the model's; (iii) a shadow heap in object.rs that turns any use of a released box or a second release into a reported event.")
+LEVEL_TEXT = ("Lean theorems about the collector model (mirror of gc.rs after its repair; mark = recursive descent through arrays with the already-marked test, sweep = release exactly the unmarked managed objects): with the fuel the collector supplies, the mark phase reaches EVERY managed object reachable from the roots through nested, aliased and cyclic arrays (measure: number of unmarked managed objects); after a collection every reachable managed object is still managed with identical contents and unmanaged objects are untouched; the managed list never holds an address twice across allocation, collection and hand-over, so no object is released twice. Tied to gc.rs by (i) collector operation sequences (allocate float/string/array, link into array incl. cycles, collect with a chosen root set, hand over, destroy) run on the REAL GC and on the model, comparing after every operation which objects are still allocated and which are managed - complete enumeration up to a length bound, random beyond; (ii) whole allocating programs: the number of objects kept and released by every collection of the real VM equals the model's; (iii) a shadow heap in object.rs that turns any use of a released box or a second release into a reported event. RUN LEVEL, ALL PROGRAMS: type soundness of the machine's values in every reachable state (TI.exec_wt over all instructions, ghost kind map) discharges the side conditions of the collector theorems, so C03_every_return_of_every_run_keeps_reachable holds at every collection point of every run with no hypothesis on the heap; and C03_no_dangling_reference: in every state a run of any program on a fresh machine passes through, every value the machine holds and every element of every unreleased array points to an unreleased cell, and every unreleased cell is managed (ND.exec_ok over all instructions, ND.post_gc for collections) - the model's form of 'no program ever observes a freed object'.")
 LEVEL_NOTE = ("Trusted: Lean kernel; the allocator (fresh addresses; reuse is below the model); that the VM passes all of its roots at each collection is checked by the per-collection correspondence and the shadow heap, the machine-level invariant 'every address the machine holds is live' is not yet a theorem (partial).")
 TECHNIQUE = "Lean 4 proof (mark completeness with cycles, collection preserves reachable, no double release) + collector op-sequence and per-collection correspondence with shadow heap"
 RULE = ("collector op sequences over a small object universe: complete enumeration up to length 4 (quick) / 5 (thorough) from a seeded prefix, "
